@@ -2,6 +2,7 @@ import XPathV.Lemmas.ParserShape
 import XPathV.Model.Api
 import XPathV.Spec.Grammar
 import XPathV.Lemmas.Facts
+import XPathV.Lemmas.ParserGrammar
 /-!
 # C10 — expressions parse with XPath 1.0 precedence, associativity and token rules
 -/
@@ -88,5 +89,50 @@ theorem operands_never_looser {cfg : PCfg} {op : String} {l r : Ast}
     (∀ op' x y, r = .oper op' x y → ¬ FromPath cfg r →
         tierRank op < tierRank op' ∨ (op' = "*" ∧ y = .num "-1" ∧ tierRank op ≤ 5)) :=
   operands_not_looser h hnp
+
+open XPathV.Spec.Grammar XPathV.Lemmas.ParserGrammar in
+/-- **C10 (main theorem): the parse tree is the one the XPath 1.0 grammar assigns.**  If
+`parseExpression` succeeds with tree `a`, the run consumed a chain `ts` of atoms (each the result
+of one `parsePathExpr` call) and operator tokens, the chain is derivable in the Recommendation's
+operator grammar (`Spec.Grammar.Derives 0`: productions [21]–[27], [18], or < and < equality <
+relational < additive < multiplicative < unary minus < union, every binary production
+left-recursive), and `a` is the tree of **every** derivation of it — the grammar is unambiguous
+(`C10_grammar_unambiguous`), so that is *the* tree. -/
+theorem C10_main {ns : Option (List (String × String))} {f : Nat} {st st' : PState} {a : Ast}
+    (h : parseExpression f (defaultCfg ns) st = .ok (a, st')) :
+    ∃ ts st'', Consumes (defaultCfg ns) { st with d := st.d + 1 } ts st'' ∧
+      st' = { st'' with d := st''.d - 1 } ∧
+      (∃ e, Derives 0 ts e) ∧ ∀ e, Derives 0 ts e → a = e.toAst :=
+  Lemmas.ParserGrammar.C10_main h
+
+open XPathV.Spec.Grammar XPathV.Lemmas.ParserGrammar in
+/-- the same for a whole expression text (`parse` = scanner + parser, end of input required) -/
+theorem C10_whole_text {ns : Option (List (String × String))} {fuel : Nat} {text : List Char} {a : Ast}
+    (h : parse fuel (defaultCfg ns) text = .ok a) :
+    ∃ s ts st', Scan.init text = .ok s ∧ Consumes (defaultCfg ns) { s := s, d := 1 } ts st' ∧
+      st'.s.typ = .eof ∧ (∃ e, Derives 0 ts e) ∧ ∀ e, Derives 0 ts e → a = e.toAst :=
+  C10_parse h
+
+open XPathV.Spec.Grammar XPathV.Lemmas.ParserGrammar in
+/-- **the XPath 1.0 operator grammar is unambiguous** on chains with opaque atoms, at every tier
+(so "the tree the grammar assigns" is well defined; this is a theorem about the Recommendation's
+productions, independent of the code) -/
+theorem C10_grammar_unambiguous {k : Nat} {ts : List T} {e₁ e₂ : E} (h1 : Derives k ts e₁) (h2 : Derives k ts e₂) :
+    e₁ = e₂ :=
+  derives_unique h1 h2
+
+open XPathV.Spec.Grammar XPathV.Lemmas.ParserGrammar in
+/-- every tier separately: a successful `parseChain` at tier `k` returns the tree of a derivation
+at tier `k` of the chain it consumed -/
+theorem C10_every_tier {cfg : PCfg} {k f : Nat} (hk : k ≤ 8) {st st' : PState} {a : Ast}
+    (h : parseChain f cfg (stages.drop k) st = .ok (a, st')) :
+    ∃ ts e, Consumes cfg st ts st' ∧ Derives k ts e ∧ a = e.toAst :=
+  parseChain_sound_tier hk h
+
+open XPathV.Lemmas.ParserGrammar in
+/-- token rule: one scanner token is at most one of the fourteen operators -/
+theorem C10_operator_token_unique {s : Scan} {o₁ o₂ : String} (h1 : o₁ ∈ Lemmas.ParserShape.allOps) (h2 : o₂ ∈ Lemmas.ParserShape.allOps)
+    (m1 : tokMatches s o₁ = true) (m2 : tokMatches s o₂ = true) : o₁ = o₂ :=
+  tokMatches_unique h1 h2 m1 m2
 
 end XPathV.Theorems.C10
